@@ -57,6 +57,10 @@ def run(chk):
         cases.append({"src": "\n".join(sa + [f"put {ea} into T", "let T be with 1, \"x\", 2", "say T"]) + "\n", "meta": {"op": "compound+list", "a": na}})
         cases.append({"src": "\n".join(sa + [f"put {ea} into T", "let T be times 2, 3", "say T", "build T up, up", "say T", "knock T down", "say T"]) + "\n", "meta": {"op": "compound*,inc", "a": na}})
         cases.append({"src": "\n".join(sa + ["Shouter takes X", "say X", "give back X", "", f"say {ea} and Shouter taking 1", f"say {ea} or Shouter taking 2", f"say {ea} nor Shouter taking 3", f"say {ea} and Shouter taking 0, Shouter taking 5"]) + "\n", "meta": {"op": "short-circuit", "a": na}})
+    # a list after a plain (non-compound) assignment is an error of its own
+    for lst in ("1, 2", "X, 2", "1, 2, 3", "\"a\", \"b\"", "1, Nope"):
+        for form in ("let T be {L}", "let Arr at 0 be {L}", "let it be {L}"):
+            cases.append({"src": "put 5 into X\nsay \"before\"\n" + form.replace("{L}", lst) + "\nsay \"after\"\nsay T\n", "meta": {"op": "plain-assignment-list"}})
     from . import compound
     for a, b, m in compound.pairs(ops=["with", "minus", "times", "over"] if quick else None):
         cases.append({"src": a, "meta": dict(m, form="compound")})
